@@ -8,15 +8,22 @@ def build(ctx):
     ctx.builddir = B.fresh_dir("c11")
     d = ctx.builddir + "/asan"
     objs = B.build_lib("asan", d)
-    return {"h_c11": B.build_harness("asan", d, "h_c11", ["h_c11.c", "refdec.c", "refenc.c"], objs)}
+    exes = {"h_c11": B.build_harness("asan", d, "h_c11", ["h_c11.c", "refdec.c", "refenc.c"], objs)}
+    if ctx.tier == "thorough":
+        d2 = ctx.builddir + "/plain"
+        exes["h_c11.plain"] = B.build_harness("plain", d2, "h_c11.plain", ["h_c11.c", "refdec.c", "refenc.c"], B.build_lib("plain", d2))
+    return exes
 
 
 def run(ctx):
-    exe = build(ctx)["h_c11"]
+    exes = build(ctx)
+    exe = exes["h_c11"]
     th = ctx.tier == "thorough"
     ctx.fan(exe, "selfcheck", 1, ["--aux", os.path.join(B.REPO, "t")])
     ctx.fan(exe, "files", 25000 if th else 800, timeout=120)
     ctx.fan(exe, "big", 9 if th else 3, chunk=1, timeout=900, max_workers=4)
+    if th:   # foreign compressed blocks beyond what the library's writer can emit: zstd decompressing to > INT_MAX bytes, zlib inflating to > 2^32 bytes (about 7 GiB and 1 min each, -O2 build)
+        ctx.fan(exes["h_c11.plain"], "bigz", 2, chunk=1, timeout=1800, max_workers=1, prefix="plain.")
     s = ctx.stats
     ctx.assumptions += ["well-formed = what harness/refenc.c emits (canonical varints, restart 0 present, separators in the legal interval) and harness/refdec.c reads back identically",
                         "codec self-checked against /repo/t/*.data and the real reader at start-up; disagreement makes the run inconclusive",
@@ -29,5 +36,5 @@ def run(ctx):
         floors={"c11.files": 600, "selfcheck.sample_files_agree": 4, "selfcheck.agree.v1": 1, "c11.nonmaximal_shares": 5000, "c11.single_entry_blocks": 500,
                 "c11.separator.last-key+00": 300, "c11.separator.shortest-separator": 50, "c11.separator.beyond-last-key": 100, "c11.directed_gap_sequences": 2000,
                 "c11.big.files": 3, "c11.big.restart_points_above_4GiB": 4, "c11.big.straddling_blocks_32bit_restarts_over_4GiB": 1, "c11.big.entry_area_exactly_UINT32_MAX": 1, "c11.big.entry_with_suffix_plus_value_ge_2^32": 1, "c11.files_read_with_verify_checksums": 200, "c11.restart_density.permille_0": 50,
-                "c11.restart_density.permille_1000": 50},
+                "c11.restart_density.permille_1000": 50, **({"plain.c11.bigz.files": 2, "plain.c11.bigz.zlib_4c_doubling_has_a_step_between_2^32_and_block_size": 1} if th else {})},
         extra={"files_by_version_and_compression": {k[len("c11.files."):]: v for k, v in s.items() if k.startswith("c11.files.v")}})
